@@ -250,7 +250,7 @@ fn run(case: &Case, cx: &mut Cx) -> CaseResult {
                 for p in &b_starts {
                     runs.push(Inner {
                         sch: Schedule(vec![(1, *p), (0, u16::MAX)]),
-                        faults: vec![RaceFault { actor: 0, verb: None, prefix: String::new(), nth, kind }],
+                        faults: vec![RaceFault { actor: 0, verb: None, prefix: String::new(), nth, kind, freeze_torn: false }],
                         flip_break_lock: false,
                     });
                 }
@@ -262,7 +262,7 @@ fn run(case: &Case, cx: &mut Cx) -> CaseResult {
                 for p in &g_starts {
                     runs.push(Inner {
                         sch: Schedule(vec![(0, *p), (1, u16::MAX)]),
-                        faults: vec![RaceFault { actor: 1, verb: Some(verb), prefix: prefix.to_string(), nth, kind }],
+                        faults: vec![RaceFault { actor: 1, verb: Some(verb), prefix: prefix.to_string(), nth, kind, freeze_torn: false }],
                         flip_break_lock: false,
                     });
                 }
